@@ -24,6 +24,10 @@ struct Kept { bool any() const { return se || sa || ra || fr; } std::shared_ptr<
 struct S {
     std::vector<Kept> kept;
     nix::File f; nix::Block b; nix::DataArray a; nix::DataFrame df;
+    // a second handle of the same array, looked up once per session and kept on the heap: it reads after every call, and every
+    // third call is made through it - what one handle of an entity did must be what every other handle of it shows
+    std::shared_ptr<nix::DataArray> a2;
+    nix::DataArray &w(long k) { return (k % 3 == 1 && a2) ? *a2 : a; }
     std::string path; bool numeric; long rank; nix::DataType numType = nix::DataType::Double;
     void create() {
         f = nix::File::open(path, nix::FileMode::Overwrite);
@@ -33,12 +37,14 @@ struct S {
         std::vector<nix::Column> cols = {{"c0", "ms", nix::DataType::Double}, {"c1", "", nix::DataType::Int64}};
         df = b.createDataFrame("df", "t", cols);
         df.rows(2);
+        a2 = std::make_shared<nix::DataArray>(b.getDataArray("a"));
     }
     void reopen(bool ro) {
         kept.assign((size_t) a.dimensionCount(), Kept{});      // the old handles die with the session; positions stay aligned with the descriptors
         f.close();
         f = nix::File::open(path, ro ? nix::FileMode::ReadOnly : nix::FileMode::ReadWrite);
         b = f.getBlock("b"); a = b.getDataArray("a"); df = b.getDataFrame("df");
+        a2 = std::make_shared<nix::DataArray>(f.getBlock(0).getDataArray(0));
     }
 };
 
@@ -104,6 +110,23 @@ json observe(S &s) {
         }
         o["dims"].push_back(r);
     }
+    // the second handle of the array must show the same descriptors (count, numbering, kinds, attributes that have a code)
+    if (s.a2) {
+        try {
+            std::vector<nix::Dimension> d2 = s.a2->dimensions();
+            if (s.a2->dimensionCount() != ds.size() || d2.size() != ds.size())
+                o["issues"].push_back("a second handle of the array shows " + std::to_string(s.a2->dimensionCount()) + " / " + std::to_string(d2.size()) + " descriptors, the first " + std::to_string(ds.size()));
+            else for (size_t i = 0; i < ds.size(); i++) {
+                if (d2[i].dimensionType() != ds[i].dimensionType() || d2[i].index() != ds[i].index()) { o["issues"].push_back("a second handle of the array shows another kind / index for descriptor " + std::to_string(i + 1)); continue; }
+                const json &r = o["dims"][i];
+                if (r["k"] == "sampled") { auto x = d2[i].asSampledDimension(); if (codeInterval(x.samplingInterval()) != r["interval"] || codeOffset(x.offset()) != r["offset"] || codeLabel(x.label()) != r["label"] || codeUnit(x.unit()) != r["unit"]) o["issues"].push_back("a second handle of the array shows other attributes for sampled descriptor " + std::to_string(i + 1)); }
+                else if (r["k"] == "set") { auto x = d2[i].asSetDimension(); if (codeLabels(x.labels()) != r["labels"] || codeLabel(x.label()) != r["label"]) o["issues"].push_back("a second handle of the array shows other attributes for set descriptor " + std::to_string(i + 1)); }
+                else if (r["k"] == "range" || r["k"] == "alias") { auto x = d2[i].asRangeDimension(); std::vector<double> t; try { t = x.ticks(); } catch (...) {}
+                    if (codeTicks(t) != r["ticks"] || codeLabel(x.label()) != r["label"] || codeUnit(x.unit()) != r["unit"]) o["issues"].push_back("a second handle of the array shows other attributes for range descriptor " + std::to_string(i + 1)); }
+            }
+            if (codeLabel(s.a2->label()) != codeLabel(s.a.label()) || s.a2->unit() != s.a.unit()) o["issues"].push_back("a second handle of the array shows another label / unit");
+        } catch (const std::exception &e) { o["issues"].push_back(std::string("getter of the second array handle threw: ") + e.what()); }
+    }
     // the array's own label / unit / data
     json ar = {{"label", codeLabel(s.a.label())}, {"unit", 0}, {"data", 0}};
     boost::optional<std::string> u = s.a.unit();
@@ -123,16 +146,16 @@ std::string doStep(S &s, const json &st, long k) {
     long x = v["x"], y = v["y"], z = v["z"], w = v["w"];
     // the deprecated create*Dimension(index, ...) entry points (the index is ignored: they append) take their turn where their
     // arguments can express the call (no label / unit / offset arguments)
-    if (a == "AppendSet" && x == 0 && k % 3 == 2) return outcome([&] { Kept q; q.se = std::make_shared<nix::SetDimension>(s.a.createSetDimension((nix::ndsize_t) (s.a.dimensionCount() + 1))); s.kept.push_back(q); });
-    if (a == "AppendSampled" && y == 0 && z == 0 && w == 0 && k % 2 == 1) return outcome([&] { Kept q; q.sa = std::make_shared<nix::SampledDimension>(s.a.createSampledDimension((nix::ndsize_t) (s.a.dimensionCount() + 1), intervalOf(x))); s.kept.push_back(q); });
-    if (a == "AppendRange" && y == 0 && z == 0 && k % 2 == 1) return outcome([&] { Kept q; q.ra = std::make_shared<nix::RangeDimension>(s.a.createRangeDimension((nix::ndsize_t) (s.a.dimensionCount() + 1), ticksOf(x))); s.kept.push_back(q); });
-    if (a == "AppendAlias" && k % 2 == 1) return outcome([&] { Kept q; q.ra = std::make_shared<nix::RangeDimension>(s.a.createAliasRangeDimension()); s.kept.push_back(q); });
-    if (a == "AppendSet") return outcome([&] { Kept q; q.se = std::make_shared<nix::SetDimension>(s.a.appendSetDimension(labelsOf(x))); s.kept.push_back(q); });
-    if (a == "AppendSampled") return outcome([&] { Kept q; q.sa = std::make_shared<nix::SampledDimension>(s.a.appendSampledDimension(intervalOf(x), labelOf(y), unitOf(z), offsetOf(w))); s.kept.push_back(q); });
-    if (a == "AppendRange") return outcome([&] { Kept q; q.ra = std::make_shared<nix::RangeDimension>(s.a.appendRangeDimension(ticksOf(x), labelOf(y), unitOf(z))); s.kept.push_back(q); });
-    if (a == "AppendAlias") return outcome([&] { Kept q; q.ra = std::make_shared<nix::RangeDimension>(s.a.appendAliasRangeDimension()); s.kept.push_back(q); });
-    if (a == "AppendFrame") return outcome([&] { Kept q; if (x == -1) q.fr = std::make_shared<nix::DataFrameDimension>(s.a.appendDataFrameDimension(s.df)); else if (k % 2 && x < 2) q.fr = std::make_shared<nix::DataFrameDimension>(s.a.appendDataFrameDimension(s.df, x == 0 ? "c0" : "c1")); else q.fr = std::make_shared<nix::DataFrameDimension>(s.a.appendDataFrameDimension(s.df, (unsigned) x)); s.kept.push_back(q); });
-    if (a == "DeleteAll") return outcome([&] { s.kept.clear(); s.a.deleteDimensions(); });
+    if (a == "AppendSet" && x == 0 && k % 3 == 2) return outcome([&] { Kept q; q.se = std::make_shared<nix::SetDimension>(s.w(k).createSetDimension((nix::ndsize_t) (s.a.dimensionCount() + 1))); s.kept.push_back(q); });
+    if (a == "AppendSampled" && y == 0 && z == 0 && w == 0 && k % 2 == 1) return outcome([&] { Kept q; q.sa = std::make_shared<nix::SampledDimension>(s.w(k).createSampledDimension((nix::ndsize_t) (s.a.dimensionCount() + 1), intervalOf(x))); s.kept.push_back(q); });
+    if (a == "AppendRange" && y == 0 && z == 0 && k % 2 == 1) return outcome([&] { Kept q; q.ra = std::make_shared<nix::RangeDimension>(s.w(k).createRangeDimension((nix::ndsize_t) (s.a.dimensionCount() + 1), ticksOf(x))); s.kept.push_back(q); });
+    if (a == "AppendAlias" && k % 2 == 1) return outcome([&] { Kept q; q.ra = std::make_shared<nix::RangeDimension>(s.w(k).createAliasRangeDimension()); s.kept.push_back(q); });
+    if (a == "AppendSet") return outcome([&] { Kept q; q.se = std::make_shared<nix::SetDimension>(s.w(k).appendSetDimension(labelsOf(x))); s.kept.push_back(q); });
+    if (a == "AppendSampled") return outcome([&] { Kept q; q.sa = std::make_shared<nix::SampledDimension>(s.w(k).appendSampledDimension(intervalOf(x), labelOf(y), unitOf(z), offsetOf(w))); s.kept.push_back(q); });
+    if (a == "AppendRange") return outcome([&] { Kept q; q.ra = std::make_shared<nix::RangeDimension>(s.w(k).appendRangeDimension(ticksOf(x), labelOf(y), unitOf(z))); s.kept.push_back(q); });
+    if (a == "AppendAlias") return outcome([&] { Kept q; q.ra = std::make_shared<nix::RangeDimension>(s.w(k).appendAliasRangeDimension()); s.kept.push_back(q); });
+    if (a == "AppendFrame") return outcome([&] { Kept q; if (x == -1) q.fr = std::make_shared<nix::DataFrameDimension>(s.w(k).appendDataFrameDimension(s.df)); else if (k % 2 && x < 2) q.fr = std::make_shared<nix::DataFrameDimension>(s.w(k).appendDataFrameDimension(s.df, x == 0 ? "c0" : "c1")); else q.fr = std::make_shared<nix::DataFrameDimension>(s.w(k).appendDataFrameDimension(s.df, (unsigned) x)); s.kept.push_back(q); });
+    if (a == "DeleteAll") return outcome([&] { s.kept.clear(); s.w(k).deleteDimensions(); });
     if (a == "Reopen") return outcome([&] { s.reopen(false); });
     if (a.rfind("Set_", 0) == 0) {
         std::string f = a.substr(4);
@@ -150,7 +173,7 @@ std::string doStep(S &s, const json &st, long k) {
             if (f == "unit" && q.ra) return outcome([&] { if (x == 0) q.ra->unit(nix::none); else q.ra->unit(unitOf(x)); });
         }
         return outcome([&] {
-            nix::Dimension d = s.a.getDimension((nix::ndsize_t) i);
+            nix::Dimension d = s.w(k).getDimension((nix::ndsize_t) i);
             if (f == "labels") { auto sd = d.asSetDimension(); if (x == 0) { if (k % 2) sd.labels(std::vector<std::string>{}); else sd.labels(nix::none); } else sd.labels(labelsOf(x)); }
             else if (f == "interval") d.asSampledDimension().samplingInterval(intervalOf(x));
             else if (f == "offset") { auto sd = d.asSampledDimension(); if (x == 0) sd.offset(nix::none); else sd.offset(offsetOf(x)); }
@@ -170,10 +193,10 @@ std::string doStep(S &s, const json &st, long k) {
     if (a.rfind("SetArr_", 0) == 0) {
         std::string f = a.substr(7);
         return outcome([&] {
-            if (f == "label") { if (x == 0) s.a.label(nix::none); else s.a.label(labelOf(x)); }
-            else if (f == "unit") { if (x == 0) s.a.unit(nix::none); else s.a.unit(unitOf(x)); }
-            else { std::vector<double> t = ticksOf(x); s.a.dataExtent(nix::NDSize({(nix::ndsize_t) t.size()}));
-                   s.a.setData(nix::DataType::Double, t.data(), nix::NDSize({(nix::ndsize_t) t.size()}), nix::NDSize({0})); }
+            if (f == "label") { if (x == 0) s.w(k).label(nix::none); else s.w(k).label(labelOf(x)); }
+            else if (f == "unit") { if (x == 0) s.w(k).unit(nix::none); else s.w(k).unit(unitOf(x)); }
+            else { std::vector<double> t = ticksOf(x); s.w(k).dataExtent(nix::NDSize({(nix::ndsize_t) t.size()}));
+                   s.w(k).setData(nix::DataType::Double, t.data(), nix::NDSize({(nix::ndsize_t) t.size()}), nix::NDSize({0})); }
         });
     }
     throw std::runtime_error("harness: unknown dims action " + a);
@@ -197,7 +220,9 @@ json handle(Ctx &c, const json &rec) {
             result = mismatch("outcome:" + all[i]["a"].get<std::string>(), all[i]["res"], r);
             break;
         }
-        if (!last) { for (auto &q : s.kept) { try { if (q.any()) (void) keptView(q); } catch (...) {} } }
+        if (!last) { for (auto &q : s.kept) { try { if (q.any()) (void) keptView(q); } catch (...) {} }
+                     try { if (s.a2) { (void) s.a2->dimensionCount(); for (auto &d : s.a2->dimensions()) (void) d.dimensionType(); (void) s.a2->label(); (void) s.a2->unit(); }
+                           (void) s.a.dimensionCount(); for (auto &d : s.a.dimensions()) (void) d.dimensionType(); } catch (...) {} }
         if (last) {
             json exp = rec["post"]; exp["issues"] = json::array();
             for (auto &d : exp["dims"]) if (d["col"].is_null()) d["col"] = -1;
